@@ -1,5 +1,6 @@
 import TruthModel.Driver.Sexp
 import TruthModel.Driver.C11
+import TruthModel.Driver.C04
 import TruthModel.Driver.C08
 import TruthModel.Driver.C18
 import TruthModel.Driver.C20
@@ -27,6 +28,7 @@ open TruthModel
 def handler (id : String) : Sexp → Sexp :=
   match id with
   | "C11" => Driver.C11.handle
+  | "C04" => Driver.C04.handle
   | "C08" => Driver.C08.handle
   | "C18" => Driver.C18.handle
   | "C20" => Driver.C20.handle
